@@ -72,7 +72,7 @@ func genC18(r *gen.Rand) *C18Case {
 	input := "in.yaml"
 	vectors := []string{"parent-dotdot", "parent-absolute", "parent-wildcard", "parent-list", "symlink-relative", "symlink-absolute",
 		"symlink-chain", "dir-symlink", "symlink-name-parent", "input-dotdot", "virtual-ext", "parent-dotdot-sub",
-		"symlink-hops", "symlink-hops", "symlink-via-dirlink"}
+		"symlink-hops", "symlink-hops", "symlink-via-dirlink", "setroot-sibling-prefix", "setroot-through-dirlink", "parent-wildcard-dir"}
 	c.Vector = gen.PickAny(r, vectors)
 	target := func(outside, inside string) string {
 		if c.Benign {
@@ -138,6 +138,39 @@ func genC18(r *gen.Rand) *C18Case {
 		w.Links = append(w.Links, procsim.Link{Path: c18Root + "/v.yaml", Target: tgt})
 		in["$parent"] = "v"
 		c.NeedsOutside = !c.Benign
+	case "setroot-sibling-prefix", "setroot-through-dirlink":
+		// nested SetRoot calls on the library: the second call names a
+		// directory outside the first root (a sibling whose name starts with
+		// the root's name, or a directory link that leaves the root); the
+		// benign twin narrows to a real sub-directory
+		rootSpelling = 0
+		c.API = true
+		put(c18Root+"-secret/d.yaml", secret(7))
+		w.Links = append(w.Links, procsim.Link{Path: c18Root + "/dl", Target: "../outside"})
+		second, input2 := abs(c18Root+"-secret"), abs(c18Root+"-secret/d.yaml")
+		if c.Vector == "setroot-through-dirlink" {
+			second, input2 = abs(c18Root+"/dl"), abs(c18Root+"/dl/d.yaml")
+		}
+		if r.Chance(0.4) && c.Vector == "setroot-sibling-prefix" {
+			second = abs(c18Root + "/../root-secret")
+		}
+		if c.Benign {
+			second, input2 = abs(c18Root+"/sub"), abs(c18Root+"/sub/s.yaml")
+		}
+		c.Roots = []string{abs(c18Root), second}
+		if r.Chance(0.3) {
+			c.Roots = append([]string{abs("W")}, c.Roots...)
+		}
+		c.Input = input2
+		c.NeedsOutside = !c.Benign
+	case "parent-wildcard-dir":
+		// a wildcard in a directory component: it can match a directory
+		// inside the root and one outside it
+		put(c18Outside+"/base.yaml", secret(8))
+		in["$parent"] = target("../*/base", "./*/s")
+		if c.Benign {
+			put(c18Root+"/sub2/s.yaml", map[string]any{"s2": 1})
+		}
 	case "dir-symlink":
 		w.Links = append(w.Links, procsim.Link{Path: c18Root + "/dl", Target: target("../outside", "sub")})
 		in["$parent"] = target("dl/d", "dl/s")
@@ -198,7 +231,7 @@ func genC18(r *gen.Rand) *C18Case {
 		// decoys for this vector are the files of root/ itself; handled by states through the generic outside dir too
 	}
 	c.Args = []string{"-r", rootArg, inputArg}
-	if !c.RootAll && r.Chance(0.25) {
+	if !c.RootAll && !c.API && r.Chance(0.25) {
 		// the same confinement reached through nested SetRoot calls on the library
 		c.API = true
 		c.Input = inputArg
@@ -260,7 +293,7 @@ func genC18(r *gen.Rand) *C18Case {
 func (c *C18Case) outsideFiles() []string {
 	var out []string
 	for _, f := range c.World.Files {
-		if strings.HasPrefix(f.Path, c18Outside+"/") {
+		if strings.HasPrefix(f.Path, c18Outside+"/") || strings.HasPrefix(f.Path, c18Root+"-secret/") {
 			out = append(out, f.Path)
 		}
 	}
@@ -441,6 +474,9 @@ func judgeC18(e *Env, c *C18Case, tag string, run int64) (*c18Obs, error) {
 			if strings.HasPrefix(p, outsideAbs) || p+"/" == outsideAbs {
 				return true
 			}
+			if sec := filepath.Join(root, c18Root+"-secret"); p == sec || strings.HasPrefix(p, sec+"/") {
+				return true
+			}
 			if subOutside != "" && strings.HasPrefix(p, subOutside) && !strings.HasPrefix(p, subOutside+"sub/") {
 				return true
 			}
@@ -519,6 +555,33 @@ func c18Candidates(c *C18Case) []*C18Case {
 	return out
 }
 
+// c18Known names the known-finding predicate a case satisfies.
+func c18Known(c *C18Case, o *c18Obs) string {
+	if o == nil || o.Clause != "result-depends-on-outside-state" || c.Vector != "parent-wildcard-dir" || c.Benign {
+		return ""
+	}
+	switch o.State {
+	case "delete", "dangling":
+		// the wildcard's directory component matched a directory outside
+		// the root; whether a file exists there decides between "escapes"
+		// and a successful evaluation of the inside match
+		return "c18-wildcard-directory-component"
+	}
+	return ""
+}
+
+func c18Sentinel() *C18Case {
+	c := &C18Case{Cwd: "W", Vector: "parent-wildcard-dir", States: []string{"baseline", "delete"}}
+	c.World.Dirs = []string{c18Root, c18Outside}
+	c.World.Files = []procsim.File{
+		{Path: c18Root + "/in.yaml", Docs: treeDocs(map[string]any{"$parent": "../*/base", "z": 1})},
+		{Path: c18Root + "/base.yaml", Docs: treeDocs(map[string]any{"inner": true})},
+		{Path: c18Outside + "/base.yaml", Docs: treeDocs(map[string]any{"secret": "S8"})},
+	}
+	c.Args = []string{"-r", "root", "root/in.yaml"}
+	return c
+}
+
 // RunC18 is the check for property C18.
 func RunC18(e *Env) (int, error) {
 	ev := e.Ev
@@ -571,6 +634,11 @@ func RunC18(e *Env) (int, error) {
 	}
 	finish := func(v *harness.Violation) (*harness.Violation, string) {
 		c := v.Case.(*C18Case)
+		if o0, ok := v.Observed.(*c18Obs); ok {
+			if key := c18Known(c, o0); key != "" {
+				return v, key
+			}
+		}
 		obs, err := judgeC18(e, c, "confirm", v.Run)
 		if err != nil || obs.Clause != v.Clause {
 			v.Note = "did not reproduce on re-execution"
@@ -590,6 +658,20 @@ func RunC18(e *Env) (int, error) {
 		return v, ""
 	}
 	t0 := time.Now()
+	{
+		c := c18Sentinel()
+		o, err := judgeC18(e, c, "sentinel", 0)
+		if err != nil {
+			return 0, err
+		}
+		ev.Eval("")
+		if o.Clause != "" {
+			v := &harness.Violation{Property: "C18", Check: "noninterference", Clause: o.Clause, Seed: e.Seed, Run: -1, Case: c, Observed: o}
+			if e.Report(v, c18Known(c, o)) {
+				return 1, nil
+			}
+		}
+	}
 	viol, err := e.Drive(n, fn, finish)
 	ev.Coverage["rule"] = "each run builds W/root (inputs, layers, sub-directory) and W/outside (decoy layers with recognisable content), plants one attack vector inside the root ($parent with .., absolute, wildcard, list; relative/absolute/chained file symlinks; directory symlink; symlink whose target name implies an outside parent; input spelled through ..; virtual extension; sub-directory root) or its benign twin, picks a root spelling (relative, absolute, ., .., /, sub-directory), and runs the stock bkl -r under strace once per outside state of a seeded schedule (baseline, decoys rewritten / corrupted / deleted / replaced by directories / by dangling links / extra files added / openat EACCES injected); oracle = identical (status, stdout) across states + no successful open of a regular file outside the root + attack runs fail with empty stdout + benign twins equal the run without -r; non-trivial = an attack vector was present and the process probed a path outside the root; distinct = canonical case"
 	ev.Coverage["loop_seconds"] = time.Since(t0).Seconds()
